@@ -40,17 +40,32 @@ func runCase(c *rig.Ctx, cs Case) verdict {
 	return runCI(c, cs)
 }
 
-var recorded = map[string]int{}
+var (
+	recorded      = map[string]int{}
+	judgeRecorded = 0
+	diffRecorded  = 0
+)
 
-// distinctFailures: failures of one class are recorded once (the check's verdict needs one replay per class; a known
-// finding must not use up the failure budget and hide other classes).
-func distinctFailures() int { return len(recorded) }
+// keepGoing: generation stops after three distinct classes of judge failures. Model/code differences never stop it
+// (at most three distinct classes of them are recorded): when the tie breaks, the search for an input on which the
+// implementation itself violates the property must go on.
+func keepGoing() bool { return judgeRecorded < 3 }
 
+// record keeps one failure per class (the check's verdict needs one replay per class).
 func record(c *rig.Ctx, cs Case, v verdict) {
 	recorded[v.class]++
 	if recorded[v.class] > 1 {
 		c.Count("failure-again:" + v.class)
 		return
+	}
+	if v.kind == "judge" {
+		judgeRecorded++
+	} else {
+		diffRecorded++
+		if diffRecorded > 3 {
+			c.Count("diff-not-recorded:" + v.class)
+			return
+		}
 	}
 	c.Fail(rig.Failure{Kind: v.kind, Class: v.class, What: v.what, Case: cs, Impl: v.impl, Model: v.model})
 }
@@ -58,6 +73,8 @@ func record(c *rig.Ctx, cs Case, v verdict) {
 // shrink: drop versions (the last one stays), then blank field groups of the remaining ones, as long as the
 // same class of failure is still produced.
 func shrink(c *rig.Ctx, cs Case, v verdict) (Case, verdict) {
+	countOutcomes = false
+	defer func() { countOutcomes = true }()
 	same := func(x Case) (verdict, bool) {
 		w := runCase(c, x)
 		return w, !w.ok && w.class == v.class
@@ -175,6 +192,9 @@ func main() {
 		}
 		// corpus of past failures first
 		files, _ := filepath.Glob(filepath.Join(os.Getenv("VERIF_DIR"), "harness", "corpus", "C11", "*.json"))
+		if os.Getenv("C11_NO_CORPUS") != "" { // development only: measure what the generators find on their own
+			files = nil
+		}
 		sort.Strings(files)
 		for _, f := range files {
 			b, err := os.ReadFile(f)
@@ -198,7 +218,7 @@ func main() {
 		// ClusterInfo level
 		n := c.Budget(260, 6000)
 		maxLen := 12
-		for i := 0; i < n && distinctFailures() < 4; i++ {
+		for i := 0; i < n && keepGoing(); i++ {
 			raw := i%5 == 4
 			hist, labels := genHistory(c.Rng, "c.example", maxLen, raw)
 			cs := Case{Mode: "ci", Global: rig.Pick(c.Rng, []string{"", "local", "remote", "remote"}), History: hist, Probes: genProbes(c.Rng)}
@@ -222,7 +242,7 @@ func main() {
 		}
 		// controller level
 		m := c.Budget(120, 2500)
-		for i := 0; i < m && distinctFailures() < 4; i++ {
+		for i := 0; i < m && keepGoing(); i++ {
 			cs, labels := genCtl(c.Rng, i%5 == 4)
 			c.Case(sig(cs), true, fmt.Sprintf("ctl ops=%02d", len(cs.Ops)/4*4), func() interface{} {
 				return map[string]interface{}{"mode": "ctl", "ops": len(cs.Ops), "varied": labels}
